@@ -7,6 +7,12 @@ VERIF = os.path.dirname(os.path.dirname(os.path.abspath(__file__)))
 ALL = [f"C{i:02d}" for i in range(1, 21)]
 
 CLAIMS = {
+    "C03": dict(
+        text="Machine-checked Coq proof (C03_resolve): for the nine versions with an installed interpreter, every opcode 0..255, EVERY operand value and every set of tables in which no free variable is also a local, xdis resolves the operand to the same table entry as CPython's dis wherever dis resolves it (const, names incl. LOAD_GLOBAL/LOAD_ATTR >>1 and LOAD_SUPER_ATTR >>2, locals, cells/frees, the 3.11+ merged locals+cells+frees table built in CPython's order with a parameter-cell once, COMPARE_OP >>4 / >>5, 3.13 paired operands). Per-opcode resolution plans are compared by vm_compute over tables regenerated from /repo and from the interpreters; the merged-table lemma is proved for all tables. Model tied to Instruction.argval by correspondence over marker tables on all 39 opcode tables; the spec is run against the real dis of 3.8-3.13.",
+        note="Trusted: Coq kernel; hand models coq/Model/Resolve.v (xdis chain and dis chain) + correspondence; opcode translator. Objects are identified by (table, index) over marker tables. Known finding D16: comparison operators are spelled 'not-in'/'is-not'/'exception-match' (same index) - reported as KNOWN-FINDING; any other spelling difference is a violation (obligation C03_cmp_spelling). Tables without an interpreter are only tied, not compared with a reference.",
+        technique="Coq proof (list lemma + vm_compute plan obligations) + in-Coq correspondence on both sides",
+        design="7/C03",
+    ),
     "C11": dict(
         text="PARTIAL proof + monitored execution. Proved in Coq (C11_only_importerror): for EVERY byte string the model of load_module either returns or raises ImportError - size check, magic lookups (every table magic has a version tuple: obligation over the regenerated table), Dropbox path, header fields and every exception of the unmarshaller are inside the conversion. The real process is explored: every prefix, single-byte mutations, deletions/insertions of the smallest corpus file of each version, adversarial length/reference/nesting fields behind each header form, random bytes - outcome class, wall time < 10 s, and audit events (exec/compile/import/open-for-write/os mutators) recorded by sys.addaudithook; the model's outcome is compared on the same inputs.",
         note="Trusted: Coq kernel; hand model coq/Model/LoadModule.v (which statements are inside the try) + correspondence; the audit-hook allow-list (traceback/linecache imports and traceback's own ast.parse of its frames). Not a theorem: termination of the reader for all inputs, memory/time of the real interpreter. Known finding D32 (host-magic fast path spends tens of seconds in CPython's marshal on a 2^31-1 tuple length).",
